@@ -2,7 +2,7 @@
    Statements only; proofs in AuthProofs.v, AuthMutProofs.v. *)
 From Coq Require Import List NArith Bool Arith.
 Import ListNotations.
-Require Import V.Regex V.Parse V.ParseProofs V.Auth V.AuthProofs V.Splice V.Setters V.AuthMut V.AuthMutProofs V.AuthValues V.Abnf V.BridgePaths V.C03Bridge.
+Require Import V.Regex V.Parse V.ParseProofs V.Auth V.AuthProofs V.Splice V.Setters V.AuthMut V.AuthMutProofs V.AuthValues V.Abnf V.BridgePaths V.C03Bridge V.C02Bridge V.C02Proofs V.C03Embed.
 Local Open Scope nat_scope.
 
 (* The all-at-once decomposition of [userinfo "@"] host [":" port] returns exactly the three ranges of
@@ -41,6 +41,19 @@ Print Assumptions C03_uri_authority.
 Theorem C03_iri_authority : forall s, L (iauthority I) s -> exists a, valid_aparts_fam I a /\ adecomposition_ok s a.
 Proof. exact iri_authority_decomposition. Qed.
 Print Assumptions C03_iri_authority.
+
+(* EMBEDDED authorities (reference.authority().host() etc.): the authority component that the reference-level
+   decomposition hands out (C02) is a string of the authority language, so the chain above applies to it: for every
+   URI / IRI reference that has an authority, that authority decomposes into valid parts and every authority scanner
+   returns exactly their ranges *)
+Theorem C03_embedded_uri : forall s, L (IRI_reference U U) s -> exists p, valid_parts_U p /\ decomposition_ok s p /\
+  forall au, p_authority p = Some au -> exists a, valid_aparts_fam U a /\ adecomposition_ok au a.
+Proof. exact embedded_uri. Qed.
+Print Assumptions C03_embedded_uri.
+Theorem C03_embedded_iri : forall s, L (IRI_reference I C02Bridge.P) s -> exists p, valid_parts_I p /\ decomposition_ok s p /\
+  forall au, p_authority p = Some au -> exists a, valid_aparts_fam I a /\ adecomposition_ok au a.
+Proof. exact embedded_iri. Qed.
+Print Assumptions C03_embedded_iri.
 
 (* non-vacuity: user info with ':', IPv6 literal, port *)
 Example C03_example :
